@@ -25,7 +25,9 @@ EXPLANATION = (
     "Not decided: duplicate-key multiplicities and everything value-level."
 )
 
-EXPECTED_PANDAS = {"inner": "inner", "left": "left", "right": "right", "full": "outer", "outer": "outer", "cross": "cross"}
+# cross: the builder refuses keys for a CROSS join (checked below), so the executor merges on its constant scratch key, where the inner join is
+# the cross product (all pairs; none when a side is empty).  An outer merge on that key pads the rows of a non-empty side when the other is empty.
+EXPECTED_PANDAS = {"inner": ("inner",), "left": ("left",), "right": ("right",), "full": ("outer",), "outer": ("outer",), "cross": ("cross", "inner")}
 
 
 def paired_field_rewrite(program, res):
@@ -67,6 +69,15 @@ def paired_field_rewrite(program, res):
     res.expect_count("C16-S2", "join-node source rewrites", n, 1)
 
 
+def _cross_needs_empty_on(program) -> bool:
+    """NaturalJoinNode refuses a CROSS join that names keys"""
+    init = program.cls("view_representations", "NaturalJoinNode").methods["__init__"]
+    for st in ast.walk(init.node):
+        if isinstance(st, ast.If) and "CROSS" in unparse(st.test) and "on_a" in unparse(st.test) and any(isinstance(x, ast.Raise) for x in ast.walk(st)):
+            return True
+    return False
+
+
 def _s1(program, res):
     sj = program.func("expr_rep", "standardize_join_type")
     res.analysed(sj)
@@ -89,11 +100,12 @@ def _s1(program, res):
     for jt in sorted(allowed):
         key = jt.lower() if lower else jt
         got = mp.get(key, key)
-        want = EXPECTED_PANDAS.get(jt.lower())
-        if got == want:
+        want = EXPECTED_PANDAS.get(jt.lower(), ())
+        if got in want and not (jt.lower() == "cross" and got == "inner" and not _cross_needs_empty_on(program)):
             res.ok("C16-S1", f"Pandas: {jt} -> how='{got}'")
         else:
-            res.fail_at("C16-S1", sc, f"pandas:{jt}", f"Pandas maps join type {jt} to how='{got}', the join of that meaning is how='{want}'")
+            extra = " (an outer merge on the constant scratch key returns the non-empty side padded with nulls when the other side is empty)" if jt.lower() == "cross" else ""
+            res.fail_at("C16-S1", sc, f"pandas:{jt}", f"Pandas maps join type {jt} to how='{got}', the join of that meaning is how={' / '.join(repr(w) for w in want)}{extra}")
     # ---- Polars
     pj = program.method("polars_model", "PolarsModel", "_natural_join_step", inherited=False)
     res.analysed(pj)
